@@ -637,6 +637,14 @@ pub fn abit_probe(i: usize, seed: u64) -> ProbeOut {
         ("four-positions", vec![0, 64, 32, 96]),
         ("pair-first-last-live", vec![0, 255]),
     ];
+    let mut patterns: Vec<(String, Vec<usize>)> = patterns.into_iter().map(|(a, b)| (a.to_string(), b)).collect();
+    for (a, b) in [(62usize, 63usize), (63, 64), (64, 65), (126, 127), (127, 128), (128, 129), (190, 191), (191, 192), (192, 193), (254, 255)] {
+        patterns.push((format!("pair-{a}-{b}"), vec![a, b]));
+    }
+    // every single live position (a coefficient that is constant at some position would go unnoticed)
+    for p in 0..256usize {
+        patterns.push((format!("single-position-class-{}", if p % 64 == 0 { "0mod64" } else if p % 64 == 63 { "63mod64" } else { "other" }), vec![p]));
+    }
     let (name, pos) = &patterns[i % patterns.len()];
     let n = 2 + (i / patterns.len()) % 2;
     let c = (i / (2 * patterns.len())) % n;
@@ -795,7 +803,7 @@ pub fn run(tier: &str, seed: u64) -> i32 {
         rep.harness_error("no commit/reveal round observed");
     }
     // (d) soundness probes of the aBit test
-    let n_probe = if tier == "thorough" { 13 * 2 * 3 * 2 * 2 } else { 13 * 2 * 3 };
+    let n_probe = if tier == "thorough" { 279 * 2 * 3 * 2 } else { 279 * 2 };
     let probes = parallel_for(n_probe, threads(), |i| abit_probe(i, seed));
     let mut probe_hits = 0u64;
     for o in probes {
